@@ -7,6 +7,11 @@ case = {
   "ext": [["sopext", uid, bytes] | ["common", uid, service_uid, [related...]] | ["async", inv, perf] | ["userid", type, rsp, primary, secondary]],
   "supported": [[abstract, [ts...], scu_role, scp_role], ...],                          # acceptor side
   "acc_handlers": {"sopext": bool, "userid": bool|None, "async": bool},
+  # optional (absent = behaviour as before):
+  "preset_ids": [None|int, ...]   context_id set on the i-th built context BEFORE it is passed to associate(contexts=...) (contexts
+                                  re-used from an earlier association carry their old IDs); the setter's own rejection is an API rejection
+  "rq_title_via": "ctor" (AE(ae_title=t), default) | "setter" (AE(); ae.ae_title = t) | "ctor-bytes" | "setter-bytes" (deprecated bytes form, utf-8)
+  "called_via": "arg" | "arg-bytes"   associate(ae_title=called) is passed whenever this key is present (also for "" / all spaces)
 }
 -> result dict: api_error | (rq_bytes, ac_bytes / rj_bytes, requestor view, acceptor view)
 """
@@ -81,13 +86,24 @@ def run(case, policy="fifo", seed=0):
 
         def user():
             try:
-                rq = AE(case["rq_title"])
+                via = case.get("rq_title_via", "ctor")
+                t = case["rq_title"]
+                if via.endswith("-bytes"):
+                    t = t.encode("utf-8")
+                if via.startswith("setter"):
+                    rq = AE()
+                    rq.ae_title = t
+                else:
+                    rq = AE(t)
                 rq.acse_timeout, rq.dimse_timeout, rq.network_timeout = 3, 3, 6
                 if case.get("impl_uid"):
                     rq.implementation_class_uid = case["impl_uid"]
                 if case.get("impl_version") is not None:
                     rq.implementation_version_name = case["impl_version"]
                 cxs = [build_context(ab, list(ts)) for ab, ts in case["requested"]]
+                for cx, pid in zip(cxs, case.get("preset_ids") or ()):
+                    if pid is not None:
+                        cx.context_id = pid
                 ext = []
                 for ab, (scu, scp) in case.get("roles", {}).items():
                     ext.append(build_role(ab, scu_role=scu, scp_role=scp))
@@ -114,7 +130,9 @@ def run(case, policy="fifo", seed=0):
                             it.secondary_field = bytes(item[4])
                     ext.append(it)
                 kw = {}
-                if case.get("called"):
+                if case.get("called_via") is not None:
+                    kw["ae_title"] = case["called"].encode("utf-8") if case["called_via"] == "arg-bytes" else case["called"]
+                elif case.get("called"):
                     kw["ae_title"] = case["called"]
                 a = rq.associate("127.0.0.1", PORT, contexts=cxs, max_pdu=case.get("max_pdu", 16382), ext_neg=ext, **kw)
             except (ValueError, TypeError, RuntimeError) as e:
